@@ -1,5 +1,6 @@
 import StunVerif.Props.C04
 import StunVerif.Props.C04Seal
+import StunVerif.Props.RefHashes
 #print axioms StunVerif.C04.key_def
 #print axioms StunVerif.C04.validate_spec
 #print axioms StunVerif.C04.missing
@@ -8,3 +9,9 @@ import StunVerif.Props.C04Seal
 #print axioms StunVerif.C04.input_covers
 #print axioms StunVerif.C04.tamper_changes_hmac_triple
 #print axioms StunVerif.C04.seal_validates
+#print axioms StunVerif.RefHashes.sha1_length
+#print axioms StunVerif.RefHashes.sha256_length
+#print axioms StunVerif.RefHashes.md5_length
+#print axioms StunVerif.RefHashes.hmac_length
+#print axioms StunVerif.RefHashes.refHashes_ok
+#print axioms StunVerif.RefHashes.rfc_vectors
